@@ -105,6 +105,84 @@ Section Inst.
   Qed.
 End Inst.
 
+(* ---- histories interleaved with management reloads (Mux.SetServerUsers) ----
+   The server state is (users generation, replay cache) (model/Replay.v [server]); the front door reads both:
+   discovery tries the keys of the CURRENT generation ([cands_of g]), the replay test uses the cache.  A reload
+   replaces the generation and leaves the cache alone, so a copy of a first segment accepted under generation gA
+   is refused under whatever generation is current at t1 - same users, users added or removed, quotas changed,
+   any number of reloads at any position between acceptance and replay. *)
+Section Reloads.
+  Variable key : Type.
+  Variable user_of : key -> N.
+  Variable open_hdr : key -> bytes -> option bytes.
+  Variable open_body_tcp : key -> bytes -> bytes -> option bytes.
+  Variable open_body_udp : key -> bytes -> bytes -> option bytes.
+  Variable le_ok : bytes -> bool.
+  Variable le_decode : bytes -> bytes -> option bytes.
+  Variable sig_of : bytes -> N.
+  Variable cands_of : N -> bytes -> addr -> list key.      (* discovery under users generation g *)
+  Variable keys_of : N -> list key.                        (* the keys registered in generation g *)
+  Hypothesis cands_registered : forall g h src k, In k (cands_of g h src) -> In k (keys_of g).
+
+  Definition tcp_front_at (s : server) :=
+    tcp_front key open_hdr open_body_tcp le_ok le_decode (cands_of (s_users s)) sig_of cache is_duplicate (s_rc s).
+  Definition udp_front_at (s : server) (ss : list (usession key)) :=
+    udp_front key user_of open_hdr open_body_udp le_ok le_decode (cands_of (s_users s)) sig_of cache is_duplicate
+              (mkU key cache (s_rc s) ss).
+
+  Lemma c06_replay_rejected_tcp_across_reload (T0 : Z) (c0 : cache) (g0 : N)
+        (hs1 : list sop) (src0 : addr) (input0 : bytes) (t0 : Z)
+        (hs2 : list sop) (src1 : addr) (input1 : bytes) (t1 : Z) :
+    new_cache streamReplayCapacity streamReplayInterval_ns T0 = Some c0 ->
+    let s0 := mkServer g0 c0 in
+    t_created (fst (tcp_front_at (sfinal s0 hs1) src0 input0 t0)) <> [] ->
+    firstn hdr_len input1 = firstn hdr_len input0 ->
+    let x := sig_of (firstn sig_len (firstn hdr_len input0)) in
+    mono_from t0 (presents hs2 ++ [(x, [], t1)]) ->
+    t1 < t0 + streamReplayInterval_ns ->
+    Z.of_nat (length (nodup N.eq_dec (remove N.eq_dec x (map op_sig (presents hs2))))) < streamReplayCapacity ->
+    let r := fst (tcp_front_at (sfinal s0 (hs1 ++ Present (x, [], t0) :: hs2)) src1 input1 t1) in
+    t_out r = [] /\ t_created r = [] /\ t_app r = [] /\ t_verdict r = V_replay.
+  Proof.
+    intros NC s0 ACC SAME x M T C. unfold tcp_front_at in *.
+    rewrite sfinal_cache in ACC. rewrite sfinal_cache. subst s0. cbn [s_rc] in *.
+    rewrite presents_app. cbn [presents].
+    exact (c06_replay_rejected_tcp_real key open_hdr open_body_tcp le_ok le_decode
+             (cands_of (s_users (sfinal (mkServer g0 c0) hs1))) sig_of
+             (keys_of (s_users (sfinal (mkServer g0 c0) hs1))) (cands_registered _)
+             T0 c0 key open_hdr open_body_tcp le_ok le_decode
+             (cands_of (s_users (sfinal (mkServer g0 c0) (hs1 ++ Present (x, [], t0) :: hs2))))
+             (presents hs1) src0 input0 t0 (presents hs2) src1 input1 t1 NC ACC SAME M T C).
+  Qed.
+
+  Lemma c06_replay_rejected_udp_across_reload (T0 : Z) (c0 : cache) (g0 : N)
+        (hs1 : list sop) (ss0 : list (usession key)) (d : bytes) (srcA : addr) (t0 : Z)
+        (hs2 : list sop) (ss1 : list (usession key)) (srcB : addr) (t1 : Z) :
+    new_cache packetReplayCapacity packetReplayInterval_ns T0 = Some c0 ->
+    let s0 := mkServer g0 c0 in
+    (let r0 := fst (udp_front_at (sfinal s0 hs1) ss0 d srcA t0) in
+     u_created r0 <> [] \/ u_delivered r0 <> [] \/ u_out r0 <> []) ->
+    srcB <> srcA ->
+    let x := sig_of (firstn sig_len (firstn hdr_len d)) in
+    mono_from t0 (presents hs2 ++ [(x, srcB, t1)]) ->
+    t1 < t0 + packetReplayInterval_ns ->
+    Z.of_nat (length (nodup N.eq_dec (remove N.eq_dec x (map op_sig (presents hs2))))) < packetReplayCapacity ->
+    let r := udp_front_at (sfinal s0 (hs1 ++ Present (x, srcA, t0) :: hs2)) ss1 d srcB t1 in
+    u_out (fst r) = [] /\ u_created (fst r) = [] /\ u_delivered (fst r) = [] /\
+    u_sessions (snd r) = ss1 /\
+    (u_verdict (fst r) = V_replay_drop \/ u_verdict (fst r) = V_undecryptable).
+  Proof.
+    intros NC s0 ACC NE x M T C. unfold udp_front_at in *.
+    rewrite sfinal_cache in ACC. rewrite sfinal_cache. subst s0. cbn [s_rc] in *.
+    rewrite presents_app. cbn [presents].
+    exact (c06_replay_rejected_udp_real key user_of open_hdr open_body_udp le_ok le_decode
+             (cands_of (s_users (sfinal (mkServer g0 c0) hs1))) sig_of
+             T0 c0 key user_of open_hdr open_body_udp le_ok le_decode
+             (cands_of (s_users (sfinal (mkServer g0 c0) (hs1 ++ Present (x, srcA, t0) :: hs2))))
+             (presents hs1) ss0 d srcA t0 (presents hs2) ss1 srcB t1 NC ACC NE M T C).
+  Qed.
+End Reloads.
+
 (* non-vacuity: the process-wide parameters do construct a cache *)
 Example ex_new_caches :
   (exists c, new_cache streamReplayCapacity streamReplayInterval_ns 0 = Some c) /\
